@@ -232,14 +232,29 @@ def r3_catch_all(chk, fx):
         ok = len(ca) == 1 and ca[0] is lp.arms[-1] and "returnResult::Err(" in ca[0].body_text() and "UnexpectedXmlEvent" in ca[0].body_text()
         chk.instance("C14/R3", "%s ends with a catch-all arm returning UnexpectedXmlEvent" % lp.label(), lp.fn, loc_of(lp.sp), holds=ok,
                      key="C14/R3 %s catch-all" % lp.label())
-    # UTF-8 validated before parsing
+    # UTF-8 validated before parsing — decided on the explored paths of ServerMsg::recv: what from_xml is handed is the Ok payload
+    # of from_utf8 on the received bytes, and a failed from_utf8 ends in Err without from_xml being called
+    from vlib import absint as A
     b = fx.user_coroutine("netconf::message::ServerMsg::recv")
     fu = b.calls_to("std::str::from_utf8", "core::str::from_utf8", user_only=True)
-    fxml = b.calls_to("ServerMsg::from_xml", user_only=True)
-    ok = len(fu) == 1 and len(fxml) == 1 and b.ok_dominates(fu[0], fxml[0].bb)
-    if ok:
-        t = b.forward_taint([fu[0].dest["l"]], through_call=lambda c: c.is_fn(*F.PASS_THROUGH) or c.is_fn("Try::branch"))
-        ok = F.op_base(fxml[0].args[0]) in t
+
+    def hook(fn, args, node, interp):
+        s2 = T.short(fn, 2)
+        if s2 in ("ServerMsg::from_xml",) or fn.endswith("::from_xml"):
+            interp.trace.append(("call", fn, tuple(args), node.get("sp")))
+            return ("sym", "PARSED")
+        if s2 == "RecvHandle::recv":
+            return ("term", "async-ready", (("sym", "RECEIVED"),))
+        return None
+    paths = A.Interp(fx, hook=hook, crates=("netconf",)).explore(b.name)
+    parsed = [p for p in paths if p.calls("from_xml")]
+    bad_utf8 = [p for p in paths if any(k.startswith("variant:") and "from_utf8(" in k and k.endswith(")") and v == "Err" for k, v in p.assume.items())]
+    ok = bool(parsed) and bool(bad_utf8)
+    for p in parsed:
+        arg = A.vstr(p.calls("from_xml")[0][2][0])
+        ok = ok and "from_utf8(" in arg and "→Ok.0" in arg
+    for p in bad_utf8:
+        ok = ok and not p.calls("from_xml") and A.is_res(p.ret) and p.ret[2] == "Err"
     chk.instance("C14/R3", "ServerMsg::recv parses only bytes that passed from_utf8 (error mapped and propagated)", b.name, fu[0].loc() if fu else None,
                  holds=ok, key="C14/R3 ServerMsg::recv utf8-validation")
     pr = fx.body("<netconf::message::rpc::PartialReply as netconf::message::ReadXml>::read_xml")
